@@ -466,7 +466,7 @@ def ubi_to_u_and_eps(ubi_matrix,unit_cell):
 
     if CHECKS.activated: checks._check_rotation_matrix(U)
 
-    B = n.linalg.inv(ubi_matrix.dot(U))
+    B = n.linalg.inv(ubi.dot(U))
     eps = b_to_epsilon(B, unit_cell)
 
     return (U,eps)
